@@ -22,6 +22,9 @@ type c05Scenario struct {
 	StreamErrs []int // message indices (per relay op counter) at which a stream op fails
 	FaultUntil time.Duration
 	Idle       time.Duration // both writers pause this long half-way (keepalive pings flow meanwhile)
+	// PartialFirst > 0: a first connection on which the client writes one record of that many bytes,
+	// the server reads only 10 of them, both sides close; the transfer then runs on the next connection
+	PartialFirst int
 }
 
 type c05Result struct {
@@ -77,6 +80,17 @@ func runC05(sc *c05Scenario) *c05Result {
 		return res
 	}
 	defer st.Shutdown()
+	st.ReuseNoise = true // one NoiseGrpcConn per side for the whole session, as with gRPC credentials
+	if sc.PartialFirst > 0 {
+		s0, c0, _ := st.ConnectRetry(5)
+		if s0.Err == nil && c0.Err == nil {
+			go c0.Conn.Write(highEntropy(sc.PartialFirst, sc.Seed+5))
+			s0.Mailbox.SetReadDeadline(time.Now().Add(20 * time.Second))
+			s0.Conn.Read(make([]byte, 10))
+			c0.Mailbox.Close()
+			s0.Mailbox.Close()
+		}
+	}
 	srv, cli, tries := st.ConnectRetry(5)
 	res.Tries = tries
 	if srv.Err != nil || cli.Err != nil {
@@ -217,6 +231,11 @@ func c05Scenarios() []*c05Scenario {
 		}
 		scs = append(scs, sc)
 	}
+	// a connection that ends with part of a record unread, then the next connection of the session
+	for i, n := range []int{100, 40000} {
+		scs = append(scs, &c05Scenario{Name: fmt.Sprintf("partial-read-then-reconnect-%d", n), Seed: 950 + i,
+			Writes: [2][]int{{50, 3000}, {70, 9}}, ReadBuf: [2]int{32768, 4096}, PartialFirst: n})
+	}
 	// idle periods longer than the keepalive interval (server pings after 5 s, client after 7 s) in
 	// the middle of a transfer, without relay faults
 	for i, idle := range []time.Duration{6500 * time.Millisecond, 9 * time.Second, 16 * time.Second}[:pick(2, 3)] {
@@ -248,8 +267,8 @@ func TestC05(t *testing.T) {
 					var res *c05Result
 					p, msg := safely(func() { res = runC05(sc) })
 					mu.Lock()
-					faulty := sc.DropPct > 0 || sc.DelayMs > 0 || len(sc.StreamErrs) > 0 || sc.Idle > 0
-					r.Case(sc.Name, faulty, fmt.Sprintf("drop=%v/delay=%v/stream-errs=%v/idle=%v", sc.DropPct > 0, sc.DelayMs > 0, len(sc.StreamErrs) > 0, sc.Idle > 0))
+					faulty := sc.DropPct > 0 || sc.DelayMs > 0 || len(sc.StreamErrs) > 0 || sc.Idle > 0 || sc.PartialFirst > 0
+					r.Case(sc.Name, faulty, fmt.Sprintf("drop=%v/delay=%v/stream-errs=%v/idle=%v/second-connection=%v", sc.DropPct > 0, sc.DelayMs > 0, len(sc.StreamErrs) > 0, sc.Idle > 0, sc.PartialFirst > 0))
 					switch {
 					case p:
 						r.Violate("C05/panic", msg, sc)
